@@ -574,8 +574,18 @@ def run_all(tier, seed):
         s = rnd.choice(["", "a", "héllo", "x" * 15, "1234567", "12345678"])
         o = X.String(s, _buffer=buf)
         P.evals += 1
-        if o.to_str() != s:
-            P.add("C01", "readback:String:data", value=s, got=o.to_str())
+        try:
+            got = o.to_str()
+        except Exception as e:  # noqa
+            got = f"raised {type(e).__name__}: {e}"
+        if got != s:
+            P.add("C01", "readback:String:data", value=s, got=got[:80])
+        try:
+            dv, dsz = Decoder(X, image(buf)).decode(X.String, o._offset)
+            if dv != s or dsz != o._size:
+                P.add("C05", "decode-value:String:data", value=s, decoded=repr(dv)[:60])
+        except LayoutError as e:
+            P.add("C05", "layout:String:data", problem=str(e), value=s)
         c = X.String(rnd.choice([1, 7, 8, 20]), _buffer=buf)
         P.evals += 1
         try:
